@@ -177,6 +177,20 @@ def run_case(case, tier):
         if g:
             viol.append({"cls": g[0], "msg": "get_folding_profile: " + g[1]})
         check_profile_summary(prof, opt, r80, stab, viol, counts, "get_folding_profile(%s)" % reference)
+    # the two curves the linkage is stated for, conformation by conformation: what get_charge_profile returns for
+    # a conformation are the sums over that conformation's own groups (a group that only other conformations hold
+    # is in neither curve), and the derivative of that conformation's folding energy follows their difference
+    if len(run.rec["names"]) > 1:
+        for cname in run.rec["names"][:3]:
+            cgroups = run.rec["confs"][cname]["groups"]
+            sub = (grid[0], min(grid[1], grid[0] + 6 * grid[2]), grid[2]) if grid[1] > grid[0] else grid
+            cp = mol.get_charge_profile(conformation=cname, grid=sub)
+            nv_ = len(viol)
+            charge.check_charge_profile(cp, cgroups, viol, counts, "api")
+            for v_ in viol[nv_:]:
+                v_["cls"] = "per-conformation-" + v_["cls"]
+                v_["msg"] = "conformation %s: %s" % (cname, v_["msg"])
+            counts["per_conformation_profiles"] = counts.get("per_conformation_profiles", 0) + 1
     cprof = mol.get_charge_profile(conformation="AVR", grid=grid)
     g = charge.check_grid([p[0] for p in cprof], *grid)
     if g:
